@@ -278,6 +278,43 @@ def check_config(chk, prog, cfg):
         if cr_[0] == "call" and cr_[1]["name"] == rt_name_ and len(cr_[2]) == 4 and mir.strip_transparent(cr_[2][0]) == ("arg", 2, cb_.names.get(2)):
             rec_closures.add(cp)
 
+    # `let mut remap = |slot: &mut Id| { let n = retain_type(slot.id, types, new_types, map); *slot = n.into(); };` -- a local closure that
+    # rewrites the place it is given (the closure form of the nested helper functions found by find_rewriters)
+    rw_closures = {}
+    for cp in prog.closures_by_root.get(rt_path, []):
+        cb_ = prog.body(cp)
+        if cb_ is None or cb_.arg_count != 2 or METHOD is not None:
+            continue
+        P_ = ("arg", 2, cb_.names.get(2))
+        calls_ = [cb_.call_term(t_, bb=bb_) for bb_, t_ in cb_.calls()]
+        if len([c_ for c_ in calls_ if c_[1]["name"] == rt_name_]) != 1 or [c_ for c_ in calls_ if c_[1]["name"] != rt_name_ and last(c_[1]["name"]) not in ("into", "from", "deref_mut", "deref")]:
+            continue
+        sts_ = list(cb_.stores())
+        if len(sts_) != 1:
+            continue
+        kind_, sbb_, j_, lhs_, rhs_ = sts_[0]
+        lt_ = cb_.place_term(lhs_)
+        val_ = cb_.rvalue_term(rhs_) if kind_ == "assign" else cb_.call_term(rhs_, bb=sbb_)
+        apl_ = paths.access_path(cb_, lt_, roots={P_})
+        if apl_ is None or apl_[0] != P_ or paths.norm(apl_[1]) != "":
+            continue
+        if not (val_[0] == "call" and last(val_[1]["name"]) in ("into", "from") and len(val_[2]) == 1 and val_[2][0][0] == "call" and val_[2][0][1]["name"] == rt_name_ and len(val_[2][0][2]) == 4):
+            continue
+        rc_ = val_[2][0]
+        a0_ = paths.access_path(cb_, rc_[2][0], roots={P_})
+        if not (a0_ is not None and a0_[0] == P_ and paths.norm(a0_[1]) == ".id" and cb_.dominates(rc_[1]["bb"], sbb_)):
+            continue
+        # the collections it passes on are the ones it captured: those of this call of retain_type
+        pass_ = False
+        for l_ in sorted(b.names):
+            ini_ = b.var_init(l_)
+            if len(ini_) == 1 and mir.closure_of(ini_[0])[0] == cp:
+                lam_ = _loops.lam_of(prog, ini_[0])
+                orc_ = lam_.outer(rc_)
+                pass_ = [mir.strip_transparent(x) for x in orc_[2][1:]] == [A_TYPES, A_NEW, A_MAP]
+        rw_closures[mir.strip_generics(cp)] = pass_
+        rewriters[mir.strip_generics(cp)] = [""]
+
     def as_recursive_call(t):
         """the recursive call behind `t`: t itself, or the call of a recursion closure rewritten to retain_type(<arg>, types, new_types, map)"""
         if t[0] == "call" and t[1]["name"] == rt_name_ and len(t[2]) == 4:
@@ -454,7 +491,13 @@ def check_config(chk, prog, cfg):
         if b.callee_name(t) not in rewriters:
             continue
         ct_ = b.call_term(t, bb=bb)
-        if METHOD is not None and len(ct_[2]) == 2:
+        if b.callee_name(t) in rw_closures:
+            tup_ = mir.unref(ct_[2][1]) if len(ct_[2]) == 2 else None
+            place_ = tup_[3][0] if tup_ is not None and tup_[0] == "agg" and tup_[1] == "tuple" and len(tup_[3]) == 1 else (ct_[2][1] if len(ct_[2]) == 2 else ct_[2][0])
+            ap = paths.access_path(b, place_, roots={entry})
+            pass_through = rw_closures[b.callee_name(t)]
+            ct_ = ("call", ct_[1], (place_,))
+        elif METHOD is not None and len(ct_[2]) == 2:
             # self.helper(&mut entry.place): the collections travel with self
             ap = paths.access_path(b, ct_[2][1], roots={entry})
             pass_through = mir.strip_transparent(ct_[2][0]) == METHOD["self"]
